@@ -65,6 +65,8 @@ def plan(chk):
     pl = []
     for i in range(150 * mult):
         pl.append(("const", rng.choice([300, 600, 1500])))
+    for i in range(16 * mult):
+        pl.append(("edge", 600))
     for i in range(120 * mult):
         pl.append(("changes", rng.choice([300, 600, 1500])))
     for i in range(40 * mult):
